@@ -56,7 +56,18 @@ func genVal(r *sim.Rand, n int, small bool) []byte {
 	if small {
 		return []byte{"abc"[r.Intn(3)]}
 	}
-	return []byte(fmt.Sprintf("%c%d", byte('a'+r.Intn(20)), n))
+	v := []byte(fmt.Sprintf("%c%d", byte('a'+r.Intn(20)), n))
+	if r.Chance(1, 6) { // lengths around hash-sized and larger buffers; the unique prefix and the unique tail both matter
+		l := []int{31, 32, 33, 40, 64, 100, 1000}[r.Intn(7)]
+		pad := make([]byte, l)
+		for i := range pad {
+			pad[i] = 'p'
+		}
+		copy(pad, v[:1])
+		copy(pad[l-len(v)+1:], v[1:]) // unique part at the END, common bytes in front
+		v = pad
+	}
+	return v
 }
 
 // Gen generates a script for C09, C11 or C13.
@@ -76,6 +87,10 @@ func Gen(prop string, r *sim.Rand, tier string) sim.Script {
 	if tier == "thorough" && r.Chance(1, 60) {
 		nKeys = 20 + r.Intn(60)
 		nOps = 100 + r.Intn(200)
+	}
+	bulk := r.Chance(1, 120) // one commit that touches hundreds of keys (batch / buffer thresholds)
+	if bulk {
+		nKeys = 150 + r.Intn(300)
 	}
 	s.Keys = keyPool(r, nKeys)
 	// a small value domain makes identical (value, weight) pairs on different keys common
@@ -102,6 +117,23 @@ func Gen(prop string, r *sim.Rand, tier string) sim.Script {
 		if r.Chance(1, 6) {
 			nOps = r.Intn(3) // nearly empty sources
 		}
+	}
+	if bulk {
+		if prop == "C13" {
+			s.Ops = append(s.Ops, WOp{K: "upd", I: 0, V: genVal(r, 0, false)}, WOp{K: "commit", N: r.Intn(5), Sync: true}, WOp{K: "saveroot"})
+		}
+		for i := 0; i < nKeys; i++ {
+			n++
+			s.Ops = append(s.Ops, WOp{K: "upd", I: i, V: genVal(r, n, false)})
+		}
+		s.Ops = append(s.Ops, WOp{K: "commit", N: r.Intn(5), Sync: true})
+		if r.Chance(1, 2) {
+			s.Ops = append(s.Ops, WOp{K: "gc"})
+		}
+		if prop == "C13" {
+			s.Ops = append(s.Ops, WOp{K: "rollback", N: r.Intn(2)})
+		}
+		nOps = 5 + r.Intn(15)
 	}
 	for i := 0; i < nOps; i++ {
 		k := r.Weighted([]int{wUpd, wDel, wReadd, wRoot, wCommit, wGC, wReload, wCrash, wSave, wRollback})
